@@ -266,3 +266,32 @@ Example m_sleeper_with_pending_notifier :
   m_pc (m_thr s 0%nat) = MRAsleep /\ ~ m_empty s /\ m_pending (m_pc (m_thr s 1%nat)) = true.
 Proof. vm_compute. repeat split; try reflexivity. discriminate. Qed.
 
+
+(* ---------------- fair schedules and the condvar-mode channel ---------------- *)
+(* The fair-termination theorem proved for the futex reader (C03/ProofsFairChanF2.v) does NOT hold
+   for this mode under the same notion of fairness (rounds scheduling every thread at least once):
+   a writer that bounces off a FULL channel and retries takes and releases read_mutex in every
+   retry, and a schedule may give the reader its turn only while the writer holds that mutex.
+   Nothing is lost -- the reader is never asleep with a message, it is enabled whenever the mutex
+   is free (chan_cv_no_deadlock / chan_cv_no_lost_wakeup hold) -- but it never gets the mutex:
+   pthread mutexes are not fair and the retry loop belongs to the client.  Witness: capacity 4
+   (two usable slots), one writer with three messages, the reader wants three; the writer publishes
+   two, then each round is  writer: plain, lock(read_mutex) | READER: lock(read_mutex) refused |
+   writer: check (FULL), unlock, note, yield.  After 2000 such rounds (each schedules both threads)
+   the reader still stands at its first lock and nothing has been read.  (The same happens with
+   unboundedly many spurious condition-variable wake-ups of a reader on an empty channel.) *)
+Definition m_starve_pre : list (nat * nat) :=
+  ([(0,0)] ++ repeat (1,0) 12)%nat.
+Definition m_starve_round : list (nat * nat) :=
+  [(1,0);(1,0);(0,0);(1,0);(1,0);(1,0);(1,0)]%nat.
+Example chan_cv_full_retry_starves_reader :
+  let s0 := minit 2 4 false 3 (fun _ => 3%nat) in
+  let s := exec msys mstep s0 (m_starve_pre ++ concat (repeat m_starve_round 2000)) in
+  (forall t, (t < 2)%nat -> In t (map fst m_starve_round)) /\
+  m_pc (m_thr s 0%nat) = MRLock /\ m_k (m_thr s 0%nat) = 3%nat /\
+  m_pc (m_thr s 1%nat) = MWSeg /\ m_k (m_thr s 1%nat) = 1%nat /\
+  ~ m_empty s /\ m_rm s = None.
+Proof.
+  split; [intros t Ht; destruct t as [|[|t]]; simpl; auto; lia|].
+  vm_compute. repeat split; try reflexivity. discriminate.
+Qed.
